@@ -64,6 +64,36 @@ type Meta struct {
 	N int    `json:"n"`
 }
 
+// VMeta converts itself (driver.Valuer / sql.Scanner, text form "k|n") and is ALSO tagged json in Row: the
+// type's own conversion has to be the one used in both directions.
+type VMeta struct {
+	K string `json:"k"`
+	N int    `json:"n"`
+}
+
+func (m VMeta) Value() (driver.Value, error) { return fmt.Sprintf("%s|%d", m.K, m.N), nil }
+func (m *VMeta) Scan(src interface{}) error {
+	var s string
+	switch x := src.(type) {
+	case string:
+		s = x
+	case []byte:
+		s = string(x)
+	default:
+		return fmt.Errorf("VMeta: cannot scan %T", src)
+	}
+	i := strings.LastIndex(s, "|")
+	if i < 0 {
+		return fmt.Errorf("VMeta: not in k|n form: %q", s)
+	}
+	n, err := strconv.Atoi(s[i+1:])
+	if err != nil {
+		return err
+	}
+	m.K, m.N = s[:i], n
+	return nil
+}
+
 type Row struct {
 	Id      int64 `sql:",primary"`
 	hidden  int    // unexported: not a column
@@ -96,6 +126,8 @@ type Row struct {
 	PJs   *Meta `sql:",json"`
 	Imp   string `sql:",implicitnull"`
 	ImpI  int64  `sql:",implicitnull"`
+	VJs   VMeta  `sql:",json"`
+	VPl   VMeta
 }
 
 const Table = "codec"
@@ -104,6 +136,15 @@ func Schema() *sqlgen.Schema {
 	s := sqlgen.NewSchema()
 	s.MustRegisterType(Table, sqlgen.UniqueId, Row{})
 	return s
+}
+
+// TrySchema is Schema without the panic: registration validates every column by a round trip of its zero value.
+func TrySchema() (*sqlgen.Schema, error) {
+	s := sqlgen.NewSchema()
+	if err := s.RegisterType(Table, sqlgen.UniqueId, Row{}); err != nil {
+		return nil, err
+	}
+	return s, nil
 }
 
 // Col describes one column for the TLA+ side: its value classes and the source forms of its SQL value.
@@ -149,6 +190,8 @@ var Cols = []Col{
 	{"p_js", "encoded", 0, []string{"nil", "k1"}, []string{"native", "string"}},
 	{"imp", "text", 0, []string{"", "v"}, []string{"native", "bytes", "binlog"}},
 	{"imp_i", "int", 64, []string{"0", "5"}, intForms},
+	{"v_js", "encoded", 0, []string{"zero", "k1"}, []string{"native", "string"}},
+	{"v_pl", "encoded", 0, []string{"zero", "k1"}, []string{"native", "string"}},
 }
 
 func mustInt(s string) int64 { n, _ := strconv.ParseInt(s, 10, 64); return n }
@@ -307,6 +350,14 @@ func Set(r *Row, col, v string) {
 	case "p_js":
 		if v == "k1" {
 			r.PJs = &Meta{K: "k", N: 1}
+		}
+	case "v_js":
+		if v == "k1" {
+			r.VJs = VMeta{K: "k", N: 1}
+		}
+	case "v_pl":
+		if v == "k1" {
+			r.VPl = VMeta{K: "k", N: 1}
 		}
 	case "imp":
 		r.Imp = v
